@@ -14,6 +14,7 @@ mod c11;
 mod c13;
 mod c15;
 mod c17;
+mod c18;
 mod smoke;
 
 fn main() {
@@ -27,6 +28,8 @@ fn main() {
         "c13" => c13::run(&args, &mut rep),
         "c15" => c15::run(&args, &mut rep),
         "c17" => c17::run(&args, &mut rep),
+        "c18" => c18::run(&args, &mut rep),
+        "c18-smoke" => std::process::exit(c18::smoke_child(args.extra.first().map_or("", String::as_str))),
         "smoke" => smoke::run(&args, &mut rep),
         "c02" => c02::run(&args, &mut rep),
         "c03" => c03::run(&args, &mut rep),
